@@ -297,3 +297,33 @@ func TestFindingC12DeleteAboveObjectDepthReachesDeleteCalendarObject(t *testing.
 		}
 	}
 }
+
+// ---------------------------------------------------------------------------------------------
+// C10: a PUT hands back the backend's path. The server wrote the raw path into the Location header, the client
+// parses the header as a URL: a path containing '%', '?' or '#' came back altered (fixed: the header is escaped).
+type locBackend struct {
+	findingsBackend
+	path string
+}
+
+func (b *locBackend) PutCalendarObject(ctx context.Context, path string, calendar *ical.Calendar, opts *PutCalendarObjectOptions) (*CalendarObject, error) {
+	return &CalendarObject{Path: b.path, ETag: "t"}, nil
+}
+
+func TestFindingC10PutLocationRoundTrip(t *testing.T) {
+	for _, p := range []string{"/user/calendars/a/50%25 off.ics", "/user/calendars/a/what?.ics", "/user/calendars/a/#1.ics", "/user/calendars/a/plain.ics"} {
+		srv := httptest.NewServer(&Handler{Backend: &locBackend{path: p}})
+		c, err := NewClient(nil, srv.URL)
+		if err != nil {
+			t.Fatal(err)
+		}
+		co, err := c.PutCalendarObject(context.Background(), "/user/calendars/a/x.ics", mustCal(t, evCal))
+		srv.Close()
+		if err != nil {
+			t.Fatalf("%q: %v", p, err)
+		}
+		if co.Path != p {
+			t.Errorf("backend path %q came back as %q", p, co.Path)
+		}
+	}
+}
